@@ -108,24 +108,24 @@ func (t *watchTruth) sorted() []truthEv {
 
 // wwatcher is one client-side watcher under observation.
 type wwatcher struct {
-	id       int
-	S        uint64
-	P        string
-	Skind    string
-	speed    string
-	quiescentReg bool // registered while no write was in flight
-	regDealt uint64 // highest revision dealt when the registration returned
-	placed   string
-	refused  bool
-	refuseErr string
-	ch       <-chan []*proto.Event
-	cancel   context.CancelFunc
-	mu       sync.Mutex
-	got      []*proto.Event
-	batches  int
-	closed   bool
-	resume   chan struct{}
-	done     chan struct{}
+	id           int
+	S            uint64
+	P            string
+	Skind        string
+	speed        string
+	quiescentReg bool   // registered while no write was in flight
+	regDealt     uint64 // highest revision dealt when the registration returned
+	placed       string
+	refused      bool
+	refuseErr    string
+	ch           <-chan []*proto.Event
+	cancel       context.CancelFunc
+	mu           sync.Mutex
+	got          []*proto.Event
+	batches      int
+	closed       bool
+	resume       chan struct{}
+	done         chan struct{}
 }
 
 func (w *wwatcher) consume(r *rand.Rand) {
@@ -154,15 +154,15 @@ func (w *wwatcher) snapshot() ([]*proto.Event, bool) {
 }
 
 type watchRig struct {
-	c     *harness.Case
-	n     *harness.Node
-	eng   *harness.Engine
-	m     *harness.Model
-	truth watchTruth
-	hist  []string
-	hmu   sync.Mutex
+	c           *harness.Case
+	n           *harness.Node
+	eng         *harness.Engine
+	m           *harness.Model
+	truth       watchTruth
+	hist        []string
+	hmu         sync.Mutex
 	nFail, nDel int64
-	inflight int32
+	inflight    int32
 }
 
 func newWatchRig(c *harness.Case, kind string, cacheSize int, ph func(string, uint64), noIdle bool) *watchRig {
